@@ -168,6 +168,13 @@ def write_evidence(pid, tier, seed, coverage, assumptions, wall, nviol):
               assumptions=assumptions, wall_s=round(wall, 2), violations=nviol)
     with open(os.path.join(evdir, f'{pid}.json'), 'w') as f:
         json.dump(ev, f, indent=1, default=str)
+    if evdir.endswith('evidence') and tier == 'thorough':
+        # evidence/<id>.json is rewritten by every run; thorough runs are long, so keep a copy of
+        # what each of them observed under results/thorough/ (same format)
+        hist = os.path.join(env.VERIF, 'results', 'thorough')
+        os.makedirs(hist, exist_ok=True)
+        with open(os.path.join(hist, f'{pid}-seed{seed}.json'), 'w') as f:
+            json.dump(ev, f, indent=1, default=str)
 
 
 def run_check(pid, tier, seed, budget=None, workers=None, ncases=None):
